@@ -134,8 +134,8 @@ def variants(tier, seed):
     for i, r in enumerate(rows):
         cc = "gcc" if i % 2 == 0 else "clang"
         opt = opts[i % len(opts)]
-        if opt == "-O0" and r["wd"].startswith(("8", "16")):
-            opt = "-O1"  # narrow digits are already the slowest rows
+        if opt == "-O0" and (r["wd"] not in ("64cc", "32cc", "32pt") or r["fw"] > 6):
+            opt = "-O1"  # unoptimised code only on rows that are cheap anyway (the compiler axis belongs to C01)
         allv.append(Variant(row_name(r) + "_" + cc + opt.replace("-", ""), cc, row_flags(r) + [opt], seed_off=10 + i))
     fixed = [
         Variant("suite_gccO2", "gcc", SUITE_FLAGS + ["-O2"], seed_off=0),
@@ -160,7 +160,7 @@ def variants(tier, seed):
 def c02():
     return dict(
         units=[dict(kind="rc", driver="C02_ec", shims=["ec.c"], variants=variants,
-                    scale={"quick": 1.0, "thorough": 4.0})],
+                    scale={"quick": 1.0, "thorough": 3.0})],
         level="exploration",
         rule=("rapidcheck cases (curve, entry point, operands, scalars) executed in every build variant and compared with the textbook "
               "affine group law over GMP (refimpl/ec_ref.hpp, itself anchored on OpenSSL for the SECG/NIST/brainpool curves): all 32 table "
